@@ -15,43 +15,43 @@ import (
 
 // Ops of the misuse alphabet. The first numReduced ops form the bounded-exhaustive alphabet.
 const (
-	opWMessage = iota // w.Message()                      -> new message handle
-	opWList           // w.List()                         -> new list handle
-	opWValueInt       // w.Value().Int32(7)
-	opMFieldInt       // M.Field(1).Int32(5)
-	opMFieldMsg       // M.Field(2).Message()             -> new message handle
-	opMFieldList      // M.Field(3).List()                -> new list handle
-	opLInt            // L.Int32(9)
-	opLMessage        // L.Message()                      -> new message handle
-	opLList           // L.List()                         -> new list handle
-	opMEnd            // M.End()   (pointer receiver on the handle variable)
-	opLEnd            // L.End()
-	opM0Build         // first message handle .Build()  (outer / stale)
-	opL0Build         // first list handle .Build()
-	opMFieldAny       // M.Field(4).Any(valid bytes)
-	opFree            // w.Free()
-	opReset           // w.Reset(nil)
+	opWMessage   = iota // w.Message()                      -> new message handle
+	opWList             // w.List()                         -> new list handle
+	opWValueInt         // w.Value().Int32(7)
+	opMFieldInt         // M.Field(1).Int32(5)
+	opMFieldMsg         // M.Field(2).Message()             -> new message handle
+	opMFieldList        // M.Field(3).List()                -> new list handle
+	opLInt              // L.Int32(9)
+	opLMessage          // L.Message()                      -> new message handle
+	opLList             // L.List()                         -> new list handle
+	opMEnd              // M.End()   (pointer receiver on the handle variable)
+	opLEnd              // L.End()
+	opM0Build           // first message handle .Build()  (outer / stale)
+	opL0Build           // first list handle .Build()
+	opMFieldAny         // M.Field(4).Any(valid bytes)
+	opFree              // w.Free()
+	opReset             // w.Reset(nil)
 	numReduced
 
-	opVBuild = iota - 1 // w.Value().Build()
-	opMFieldStr         // M.Field(300).String("str")
-	opMFieldAnyEmpty    // M.Field(5).Any(nil)
-	opLAny              // L.Any(valid bytes)
-	opLAnyEmpty         // L.Any(nil)
-	opLString           // L.String("elem")
-	opMMerge            // M.Merge(valid message)
-	opMCopy             // M.Copy(valid message)
-	opErr               // w.Err()
-	opLLen              // L.Len()
-	opMHasField         // M.HasField(1)
-	opMBuild            // M.Build() on the latest handle
-	opLBuild            // L.Build()
-	opM0FieldInt        // first message handle .Field(9).Int64(1)  (stale write)
-	opL0Int             // first list handle .Int32(1)
-	opWValueStr         // w.Value().String("v")
-	opResetBuf          // w.Reset(buffer with garbage)
-	opMFieldBytesBig    // M.Field(7).Bytes(70000 bytes)
-	opMEndAgain         // End on a handle VARIABLE that was already ended (known finding: nil dereference)
+	opVBuild         = iota - 1 // w.Value().Build()
+	opMFieldStr                 // M.Field(300).String("str")
+	opMFieldAnyEmpty            // M.Field(5).Any(nil)
+	opLAny                      // L.Any(valid bytes)
+	opLAnyEmpty                 // L.Any(nil)
+	opLString                   // L.String("elem")
+	opMMerge                    // M.Merge(valid message)
+	opMCopy                     // M.Copy(valid message)
+	opErr                       // w.Err()
+	opLLen                      // L.Len()
+	opMHasField                 // M.HasField(1)
+	opMBuild                    // M.Build() on the latest handle
+	opLBuild                    // L.Build()
+	opM0FieldInt                // first message handle .Field(9).Int64(1)  (stale write)
+	opL0Int                     // first list handle .Int32(1)
+	opWValueStr                 // w.Value().String("v")
+	opResetBuf                  // w.Reset(buffer with garbage)
+	opMFieldBytesBig            // M.Field(7).Bytes(70000 bytes)
+	opMEndAgain                 // End on a handle VARIABLE that was already ended (known finding: nil dereference)
 	numOps
 )
 
@@ -314,7 +314,7 @@ func runMisuse(ops []byte, useBuffer bool) (out *c12Outcome, rootBuilds int, err
 					fail("reset:error-survives", "Err() = %q right after Reset", err)
 				}
 			}
-		}, )
+		})
 		if p != nil {
 			key := "panic:" + opNames[op]
 			if op == opMEndAgain {
@@ -429,11 +429,11 @@ func C12(c *runner.Cfg) *report.Result {
 	}, nil)
 	// fixed regression sequences (always run, so listed known findings are always re-observed)
 	fixed := [][]byte{
-		{opWMessage, opMFieldInt, opMEnd, opMEndAgain},                        // End twice on the same variable
-		{opWMessage, opWValueInt, opWValueInt, opFree},                        // Free after a failed call
+		{opWMessage, opMFieldInt, opMEnd, opMEndAgain},                                  // End twice on the same variable
+		{opWMessage, opWValueInt, opWValueInt, opFree},                                  // Free after a failed call
 		{opWMessage, opMFieldInt, opMFieldList, opLLen, opLInt, opLLen, opLEnd, opMEnd}, // Len of a nested list
-		{opWMessage, opMFieldAnyEmpty, opMFieldInt, opM0Build},                // rejected Any then sticky
-		{opWList, opLMessage, opMFieldInt, opLEnd, opMEnd, opL0Build},         // wrong nesting order
+		{opWMessage, opMFieldAnyEmpty, opMFieldInt, opM0Build},                          // rejected Any then sticky
+		{opWList, opLMessage, opMFieldInt, opLEnd, opMEnd, opL0Build},                   // wrong nesting order
 	}
 	for i, ops := range fixed {
 		record("fixed", i, ops, false)
